@@ -256,10 +256,6 @@ func (dsm *DsManager) DeleteDataset(name string) error {
 	dsm.store.datasets.Delete(name)
 	dsm.store.datasetsByInternalID.Delete(existingDataset.InternalID)
 	key := existingDataset.getStorageKey()
-	err := dsm.store.deleteValue(key)
-	if err != nil {
-		return err
-	}
 
 	// record we deleted it.
 	// swap map out with new modified copy of map to avoid concurrent read/write issues which can occur if
@@ -270,7 +266,9 @@ func (dsm *DsManager) DeleteDataset(name string) error {
 	}
 	newDeletedDatasets[existingDataset.InternalID] = true
 	dsm.store.deletedDatasets = newDeletedDatasets
-	err = dsm.store.StoreObject(StoreMetaIndex, "deleteddatasets", dsm.store.deletedDatasets)
+	// remove the dataset record and persist the set of deleted datasets in one transaction: a crash
+	// between the two would leave the data of a dataset without record visible (and never collected)
+	err := dsm.store.deleteValueAndStoreObject(key, StoreMetaIndex, "deleteddatasets", dsm.store.deletedDatasets)
 	if err != nil {
 		return err
 	}
